@@ -194,9 +194,27 @@ def upper_translate(msgid, domain=None, mapping=None, context=None,
     return ("T(%s)" % s) if isinstance(s, str) else s
 
 
+def subclasses():
+    """Application subclasses that differ in class-level configuration which
+    is not an option (here: what the 'python' expression type means)."""
+    import chameleon
+    from chameleon.tales import StringExpr
+
+    class SubA(chameleon.PageTemplate):
+        pass
+
+    class SubB(chameleon.PageTemplate):
+        expression_types = dict(chameleon.PageTemplate.expression_types,
+                                python=StringExpr)
+    return {"SubA": SubA, "SubB": SubB}
+
+
 def make_template(job):
     import chameleon
-    cls = getattr(chameleon, job["cls"])
+    if job["cls"] in ("SubA", "SubB"):
+        cls = subclasses()[job["cls"]]
+    else:
+        cls = getattr(chameleon, job["cls"])
     opts = dict(job.get("options") or {})
     for k in ("boolean_attributes", "implicit_i18n_attributes"):
         if isinstance(opts.get(k), list):
